@@ -170,7 +170,7 @@ def run(ctx):
               "with any setting below a built-in floor an unanswered request stays pending past the configured deadline")
 
     # ---- R7 join minimum
-    r = ctx.rule("R7", "join passes a minimum above the session timeout; the coordinator sender forwards it to the wrapper", 2, "A")
+    r = ctx.rule("R7", "join passes a minimum above the session timeout; the coordinator sender forwards it to the wrapper; nobody else asks for longer", 3, "A")
     sj = ctx.func("_group:Coordinator.send_join_group_request")
     cs = [x for x in calls_in(sj, "_send_request_to_coordinator")]
     mt = kwarg(cs[0], "min_timeout") if cs else None
@@ -178,6 +178,12 @@ def run(ctx):
     r.check(isinstance(mtv, (int, float)) and not isinstance(mtv, bool) and mtv >= 30, "%s#min_timeout" % sj.qname,
             "join request does not ask for a timeout above the 30s rebalance window", where(sj, sj.node),
             "join times out client-side while the group is still rebalancing: rejoin storm")
+    # ... and only the join: every other group request (sync, heartbeat, leave) is bounded by the client timeout
+    others = sorted({"%s line %d" % (f_.qname, c_.lineno) for f_ in prog.funcs.values() if f_.module.name in ("_group", "consumer", "producer") and f_ is not sj
+                     for c_ in calls_in(f_) if kwarg(c_, "min_timeout") is not None})
+    r.check(not others, "_group#only-the-join-asks-for-longer", "a request other than the group join is given a minimum timeout: %s" % others,
+            where(sj, sj.node), "a SyncGroup to a silent coordinator stays pending for the join's 35 s on a 10 s client; with disconnect-on-timeout the "
+            "other requests on that connection are re-sent 25 s late")
     src = ctx.func(KC + "._send_request_to_coordinator")
     fw = [x for x in calls_in(src, w.name)]
     r.check(bool(fw) and any(k.arg is None and norm(k.value) == src.node.args.kwarg.arg for k in fw[0].keywords) if src.node.args.kwarg
